@@ -54,3 +54,10 @@ def run(rep: Report, repo: Repo, tier: str) -> None:
     from . import render as _render
     with rep.isolated():
         _render.rule_class_rendering(rep, repo, "C07-R13")
+    # the doc text that is rendered is the cleaned doccomment itself: nothing re-indents it between cleaner and entry
+    from . import bindings as _bd
+    with rep.isolated():
+        _bd.rule_pairing(rep, repo, "C07-R14")
+    # member commands are recognised (and nested into their class) however they are capitalised
+    with rep.isolated():
+        misc_rules.rule_case_folding(rep, repo, "C07-R15")
